@@ -335,6 +335,17 @@ func raceStorms(r *rng) []raceStorm {
 		}
 		out = append(out, vs)
 	}
+	// schemas that do not compile: every call, the first and the later ones, alone or among others, answers like the first
+	{
+		vs := raceStorm{name: "validate-schemas-that-do-not-compile", iters: 60}
+		for _, txt := range []string{"input: {\n\tname: string\n\tn: int\n", "input: {\n\tname: strng\n\tn: int\n}\n", "input: {\n\tname: string & int\n\tn: int\n}\n", "input: {\n\tname: string\n}\ninput: 5\n"} {
+			txt += "// " + tag + "\n"
+			for _, q := range []string{"$.input.name", "$.input.n", "$.input.nosuchfield.deeper", "{OR,$.input.name.Equal(\"a\")}"} {
+				vs.items = append(vs.items, raceItem{kind: "validate", q: q, schema: txt, cp: "", want: cueValidateOnce(q, txt, "").canonLoose()})
+			}
+		}
+		out = append(out, vs)
+	}
 	// queries nested to different depths, parsed at the same time (and evaluated: Select parses its sub-query while it runs)
 	{
 		ps := raceStorm{name: "nested-parses", iters: 150}
